@@ -54,6 +54,37 @@ Theorem T16_8_dead_const_sound : forall sup s, outcomes_block sup (apply_dead s)
 Proof. exact dead_const_sound. Qed.
 Print Assumptions T16_8_dead_const_sound.
 
+(* ===================== match statements (seeded/C01-d; T16.1 / T16.1b / T16.1c / T16.2 above now range over
+   statement trees with `match`: cases with an opaque or irrefutable pattern, an optional guard, a body) ===== *)
+(* T16.9a  core.is_blocking has no clause for ast.Match: never judged impossible to get past *)
+Theorem T16_9a_match_never_blocking : forall cs p, is_blocking (SMatch cs) p = false.
+Proof. exact match_never_blocking. Qed.
+Print Assumptions T16_9a_match_never_blocking.
+
+(* T16.9b  a break / continue of the enclosing loop in ANY case body is seen by _may_leave_iteration *)
+Theorem T16_9b_match_case_leave_seen :
+  forall cs c, List.In c cs -> any_leave (snd c) = true -> may_leave (SMatch cs) = true.
+Proof. exact match_case_leave_seen. Qed.
+Print Assumptions T16_9b_match_case_leave_seen.
+
+(* R16.9  the walk that follows only body / handlers / orelse / finalbody (Match.cases forgotten) is refuted:
+   a break it does not see leaves the loop; `while True:` / a literal `for` scanned with it are judged
+   impossible to get past although they complete normally ... *)
+Theorem R16_9_stmt_list_walk_refuted :
+  (exists s, may_leave_stmt_lists s = false /\ o_b (outcomes false s) = true) /\
+  (exists body, scan_with may_leave_stmt_lists body PWhile true = true /\
+                o_n (outcomes false (SWhile TTrue body [])) = true) /\
+  (exists body, scan_with may_leave_stmt_lists body PFor false = true /\
+                o_n (outcomes false (SFor INonEmpty body [])) = true).
+Proof. exact stmt_list_walk_refuted. Qed.
+Print Assumptions R16_9_stmt_list_walk_refuted.
+
+(* ... and agrees with _may_leave_iteration on every tree without a match statement *)
+Theorem T16_9_partial_no_match :
+  forall s, no_match s = true -> may_leave_stmt_lists s = may_leave s.
+Proof. exact stmt_list_walk_partial_no_match. Qed.
+Print Assumptions T16_9_partial_no_match.
+
 (* ===================== classification of `for` iterables inside is_blocking ===================== *)
 Require Import Pyrefact.IterModel Pyrefact.IterProofs.
 
